@@ -103,5 +103,10 @@ let sched_cmd cmd tk = match cmd with
       | "QUIESCE" -> (match enabled_sims stat cur with [] -> "ok" | l -> "enabled " ^ String.concat "," (List.map (fun i -> string_of_int (int_of_nat i)) l))
       | "END" -> Printf.sprintf "alldone=%b" (all_done stat cur)
       | "PROG" -> let i = next_nat tk in str_time (cur i).prog
+      | "STATE" -> let i = next_nat tk in
+          (* progress and the sorted queue of one simulator, as the harness prints them *)
+          let lt a b = Model.tlt a b in
+          let sorted = List.sort (fun a b -> if lt a b then -1 else if lt b a then 1 else 0) (cur i).nexts in
+          str_time (cur i).prog ^ ";" ^ String.concat "," (List.map str_time sorted)
       | _ -> failwith ("bad event " ^ ev)) end
   | _ -> None
